@@ -201,6 +201,17 @@ def end_to_end(ctx, n):
                 if p not in ("", "/"):
                     break
             pats.append(p)
+        if t % 5 == 1:
+            # unanchored patterns whose wildcard is followed by more text, or that begin with a one-character wildcard: the
+            # wildcard matches within ONE name, never across a '/'
+            leaf1 = {"k": "f", "data": "6c", "mode": 0o644, "mtime": 10**18 + 8}
+            def d1(c_):
+                return {"k": "d", "mode": 0o755, "mtime": 10**18, "c": c_}
+            tree["c"].update({"libx.a": dict(leaf1), "libs": d1({"größe.a": dict(leaf1), "other": dict(leaf1)}),
+                              "libfoo": d1({"pkg.a": d1({"data": dict(leaf1)}), "readme": dict(leaf1)}),
+                              "tmp": d1({"keep": dict(leaf1)}), "xtmp": dict(leaf1), "sub": d1({"ytmp": dict(leaf1), "tmp": dict(leaf1)})})
+            pats = ctx.rng.choice([["lib*.a", "?tmp"], ["lib*.a"], ["?tmp"], ["lib[!x]*.a", "[!a]tmp"]])
+            names = tree_names(tree)
         if t % 5 == 2:
             # a recursive wildcard in the MIDDLE of a pattern also stands for no directory at all: /src/**/gen matches /src/gen
             leaf = {"k": "f", "data": "67", "mode": 0o644, "mtime": 10**18 + 6}
